@@ -22,7 +22,29 @@ CODEC_TRUSTED = [
     "z3 5.1.0 and the VC generator itself (mitigated by the seeded-mutant runs recorded in DESIGN.md)",
 ]
 
+GEN_CHECKS = ["fcp.verifier:make_general_verifier." + n for n in (
+    "check_duplicate_typenames", "check_duplicate_impl", "check_duplicate_struct_fields", "check_struct_contains_struct_fields",
+    "check_enum_duplicate_enumerations_names", "check_enum_duplicate_enumerations_values", "check_device_contains_services")]
+PLUGIN_CHECKS = ["fcp_dbc.generator:Generator.register_checks.check_impl_valid_type",
+                 "fcp_dbc.generator:Generator.register_checks.check_duplicate_can_ids",
+                 "fcp_can_c.generator:Generator.register_checks.check_impl_valid_type"]
+
 PLANS = {
+    "C09": {
+        "targets": GEN_CHECKS + PLUGIN_CHECKS + ["fcp.specs.v2:FcpV2.get_struct", "theorems:C09_general", "theorems:C09_dbc"],
+        "native": "wf",
+        "trusted": [
+            "assumed contract fcp.specs.v2:FcpV2.get (node list per category; the (struct, field) pairs are abstract FieldNode values)",
+            "list.count / membership facts used: count(s,x) > 0 <-> x in s, 0 <= count <= len (prelude)",
+            "list comprehension over a list is a function of the list (same term in code and spec)",
+            "inspect.stack / getframeinfo / Path inside FcpError are opaque observers",
+            "z3 5.1.0 and the VC generator",
+        ],
+        "explanation": "every registered check is proved to reject exactly its clause of the well-formedness spec; the theorems symbolically "
+                       "execute the real make_general_verifier(), Generator.register_checks(), Verifier.verify/run_checks and the real @catch/"
+                       ".attempt() plumbing and prove verdict == spec for all schemas; order independence follows because the spec is built from "
+                       "count/membership only",
+    },
     "C02": {
         "targets": BUFFER + LOOKUPS + ENCODERS + BIT_LEMMAS,
         "native": "codec",
